@@ -292,6 +292,22 @@ func c13Ammo(r *R) {
 			}
 		}
 	}
+	if format == "grpc/json" && coe && k > 0 && passes > 0 && !failed {
+		// continue-on-error: the malformed lines are skipped (handed out marked invalid), the well-formed ones are
+		// delivered as written, every pass, whatever object of the provider's pool carries them
+		perTag := map[string]int{}
+		for _, g := range out.All {
+			if strings.Contains(g.Extra, "invalid=false") {
+				perTag[g.Tag]++
+			}
+		}
+		for i := 0; i < k; i++ {
+			if t := pass[i].Tag; perTag[t] != passes {
+				r.Fail("continue-on-error/well-formed-entry-lost/"+defect, "with continue-on-error the well-formed entry %q was delivered valid %d times in %d passes (all deliveries: %d)\nfile: %s", t, perTag[t], passes, len(out.All), clipB(file))
+				break
+			}
+		}
+	}
 	if format == "grpc/json" && k > 0 && mustErr && !coe && cons == 1 && passes > 0 {
 		for i := 0; i < len(out.All) && i < k; i++ {
 			if out.All[i].Tag != pass[i].Tag {
@@ -315,7 +331,7 @@ func c13ScenarioYAML(grpc bool, e map[string]string) string {
 	}
 	var b strings.Builder
 	b.WriteString("variable_sources:\n")
-	b.WriteString("  - name: users\n    type: " + get("vs_type", "file/csv") + "\n    file: " + get("csv_file", "/ammo/users.csv") + "\n    fields: [user_id, name]\n    ignore_first_line: true\n    delimiter: ','\n")
+	b.WriteString("  - name: users\n    type: " + get("vs_type", "file/csv") + "\n    file: " + get("csv_file", "/ammo/users.csv") + "\n    fields: [" + get("csv_fields", "user_id, name") + "]\n    ignore_first_line: " + get("csv_skip_first", "true") + "\n    delimiter: '" + get("csv_delim", ",") + "'\n")
 	b.WriteString("  - name: filter_src\n    type: file/json\n    file: " + get("json_file", "/ammo/filter.json") + "\n")
 	b.WriteString("  - name: vars\n    type: variables\n    variables:\n      b: s\n")
 	if grpc {
@@ -345,7 +361,7 @@ func c13ScenarioHCL(e map[string]string) string {
 		return def
 	}
 	var b strings.Builder
-	b.WriteString("variable_source \"users\" \"file/csv\" {\n  file = \"" + get("csv_file", "/ammo/users.csv") + "\"\n  fields = [\"user_id\", \"name\"]\n  ignore_first_line = true\n  delimiter = \",\"\n}\n")
+	b.WriteString("variable_source \"users\" \"file/csv\" {\n  file = \"" + get("csv_file", "/ammo/users.csv") + "\"\n  fields = [\"" + strings.ReplaceAll(get("csv_fields", "user_id, name"), ", ", "\", \"") + "\"]\n  ignore_first_line = " + get("csv_skip_first", "true") + "\n  delimiter = \"" + get("csv_delim", ",") + "\"\n}\n")
 	b.WriteString("request \"auth_req\" {\n  method = \"POST\"\n  uri = \"/auth\"\n  tag = \"auth\"\n  headers = {}\n  body = \"{}\"\n  preprocessor {\n    mapping = {\n      user_id = \"" + get("mapping", "source.users[next].user_id") + "\"\n    }\n  }\n}\n")
 	b.WriteString("request \"list_req\" {\n  method = \"GET\"\n  uri = \"/list\"\n  tag = \"list\"\n  headers = {}\n}\n")
 	b.WriteString("scenario \"s1\" {\n  weight = " + get("weight", "2") + "\n  min_waiting_time = " + get("mwt", "10") + "\n  requests = [\n")
@@ -388,6 +404,11 @@ var c13ScDefects = []scDefect{
 	{"csv-header-only", nil, map[string]string{"/ammo/users.csv": "user_id,name\n"}, false},
 	{"csv-missing", nil, map[string]string{"/ammo/users.csv": "-"}, true},
 	{"csv-ragged", nil, map[string]string{"/ammo/users.csv": "user_id,name\n1\n2,bob,extra\n"}, false},
+	{"csv-more-fields-than-columns", map[string]string{"csv_fields": "user_id, name, email, phone"}, nil, false},
+	{"csv-fewer-fields-than-columns", map[string]string{"csv_fields": "user_id"}, nil, false},
+	{"csv-no-header-skip", map[string]string{"csv_skip_first": "false"}, nil, false},
+	{"csv-other-delimiter", map[string]string{"csv_delim": ";"}, nil, false},
+	{"csv-quote-unterminated", nil, map[string]string{"/ammo/users.csv": "user_id,name\n1,\"alice\n2,bob\n"}, false},
 	{"json-source-empty", nil, map[string]string{"/ammo/filter.json": ""}, true},
 	{"json-source-invalid", nil, map[string]string{"/ammo/filter.json": "{\"a\": [1, 2"}, true},
 	{"json-source-empty-array", nil, map[string]string{"/ammo/filter.json": "[]"}, false},
